@@ -54,7 +54,7 @@ def filter_failures(prop, rep):
 def smoke(prop, cfg, limit=60):
     """B on a sample of the property's pool. Returns (report, relevant failures)."""
     items = pool(prop, limit)
-    rep = bharness.run_b(b_config(prop, cfg), items)
+    rep = bharness.run_b(b_config(prop, cfg), items, hostile=(prop == 'C14'))
     return rep, filter_failures(prop, rep), rep['model_failures']
 
 
@@ -62,13 +62,29 @@ def search(prop, disagreements, notes):
     """Given A-disagreements (dicts with 'item' objects), look for an input on
     which the real expansion behaves differently from the specification."""
     cfg = b_config(prop, disagreements[0]['config'].split(' ')[0])
-    items = []
+    items, seen = [], set()
+    loose = set()
     for d in disagreements:
         it = d.get('item')
-        if it is not None and bharness.compatible(it):
+        if it is None or it.rust() in seen or len(items) >= 80:
+            continue
+        if bharness.compatible(it):
+            seen.add(it.rust())
             items.append(('disagreeing:' + d['stream'], bharness.b_transform(it)))
-    items += pool(prop, 300)
-    rep = bharness.run_b(cfg, items)
+        elif bharness.compatible(it, strict=False):
+            # possibly ill-posed on the user's side: a compile error proves nothing, other observations do
+            seen.add(it.rust())
+            loose.add(len(items))
+            items.append(('disagreeing-loose:' + d['stream'], bharness.b_transform(it)))
+    if engine.PROPS[prop]['traits'] != []:
+        items += pool(prop, 300)
+    if not items:
+        notes.append('failing-input search: no disagreeing item is executable by correspondence B')
+        return None
+    rep = bharness.run_b(cfg, items, hostile=(prop == 'C14'))
+    for idx in list(rep['compile_errors']):
+        if idx in loose:
+            del rep['compile_errors'][idx]
     fails = filter_failures(prop, rep)
     notes.append('failing-input search: %d items, %d queries in %s, %d relevant failures' %
                  (rep['items'], rep['queries'], cfg, len(fails)))
@@ -78,6 +94,9 @@ def search(prop, disagreements, notes):
     f = fails[0]
     return dict(item_source=f['source'], config=f['config'], operation=f['operation'], operands=f['operands'],
                 expected_by_specification=f['expected'], observed_with_real_macro=f['observed'],
+                scope=('hostile module: local `core`/`std` modules, local Option/Some/None/Ordering/Result/.. types, local '
+                       'matches!/unreachable! macros and a blanket trait with `&self` methods finish/finish_non_exhaustive/'
+                       'field/eq/partial_cmp/cmp/hash/clone/fmt (gen/bharness.py: HOSTILE)') if prop == 'C14' else 'plain module',
                 how_to_replay='put the item into a crate depending on /repo with the listed features and run the operation on the operands '
                               '(operand encoding variant:field values; 99 is the NaN-like probe value)',
                 other_failures=len(fails) - 1)
